@@ -9,6 +9,7 @@ use crate::{
 ///
 /// See the OS dev wiki: <https://wiki.osdev.org/PS/2_Keyboard#Scan_Code_Set_2>
 /// Additional reference: <https://www.win.tue.nl/~aeb/linux/kbd/scancodes-10.html>
+#[cfg_attr(feature = "verif-hooks", derive(Debug, Clone, PartialEq, Eq))]
 pub struct ScancodeSet2 {
     state: DecodeState,
 }
